@@ -254,6 +254,25 @@ def simplex_part(run, tier):
                 if all(c == 0 for c in coeffs):
                     coeffs[r.randrange(nv)] = 1
                 cons.insert(r.randrange(len(cons) + 1), (coeffs, r.random() < 0.5, r.randint(-4, 6)))
+        elif _ % 8 == 4:
+            # late bounds: first a few rows whose constants force pivots at the all-zero assignment (>= positive, <= negative),
+            # sharing variables, then bounds on single variables that lie beyond the value the variable has by then (negative
+            # upper bounds, positive lower bounds): the move of a non-basic variable has to reach every row it occurs in after
+            # the earlier pivots
+            nv = r.randint(2, 4)
+            names = ['x%d' % i for i in range(nv)]
+            for _k in range(r.randint(2, 3)):
+                coeffs = [r.choice([1, 1, 1, -1, 2, 0]) for _j in range(nv)]
+                if sum(1 for c in coeffs if c) < 2:
+                    coeffs = [1] * nv
+                ge = r.random() < 0.5
+                cons.append((coeffs, ge, r.randint(1, 6) if ge else r.randint(-6, 6)))
+            for i in r.sample(range(nv), r.randint(1, nv)):
+                unit = [1 if j == i else 0 for j in range(nv)]
+                if r.random() < 0.6:
+                    cons.append((unit, False, r.randint(-8, -1)))
+                else:
+                    cons.append((unit, True, r.randint(1, 8)))
         else:
             for _k in range(r.randint(1, 6)):
                 coeffs = [r.randint(-4, 4) if r.random() < 0.7 else 0 for _j in range(nv)]
